@@ -310,9 +310,10 @@ if thresh <= self.options.verbosity <= topthresh: print(msg)
 def Sys.msg (s : Sys) (sec m : Nat) (thresh : Int) (topthresh : Int := 100) (once : Bool := false) : Sys :=
   if once && s.onceMsgs.contains (sec, m) then s
   else
-    let s1 := if once then { s with onceMsgs := (sec, m) :: s.onceMsgs } else s
-    let s2 := if thresh < 0 then { s1 with violations := s1.violations + 1 } else s1
-    if thresh ≤ s2.verbosity ∧ s2.verbosity ≤ topthresh then { s2 with printed := s2.printed + 1 } else s2
+    { s with
+      onceMsgs := if once then (sec, m) :: s.onceMsgs else s.onceMsgs
+      violations := if thresh < 0 then s.violations + 1 else s.violations
+      printed := if thresh ≤ s.verbosity ∧ s.verbosity ≤ topthresh then s.printed + 1 else s.printed }
 
 def lookup (k : Nat) : List (Nat × List Nat) → Option (List Nat)
   | [] => none
